@@ -18,6 +18,11 @@ from lib.snapshot import Snapshot  # noqa: E402
 
 
 def main():
+    for stream in (sys.stdout, sys.stderr):
+        try:
+            stream.reconfigure(errors="backslashreplace")      # generated names may hold what no encoding can print (lone surrogates)
+        except Exception:
+            pass
     ap = argparse.ArgumentParser()
     ap.add_argument("prop")
     ap.add_argument("--tier", default=os.environ.get("VERIF_TIER") or "quick", choices=["quick", "thorough"])
